@@ -26,7 +26,7 @@ class FakeFile(object):
         # 'a+' files are positioned at the end after seek(0, 2) / after a write
         n = 0
         for _idx, s in self.fs.files.get(self.name, []):
-            n = n + len(s)
+            n = n + self.fs.width(s)
         return n
 
     def write(self, s):
@@ -58,6 +58,11 @@ class FakePath(object):
     def exists(self, p):
         return p in self.fs.files
 
+    def getsize(self, p):
+        if p not in self.fs.files:
+            raise FileNotFoundError(p)
+        return self.fs.size(p)
+
     def __getattr__(self, n):
         return getattr(_real_os.path, n)
 
@@ -67,6 +72,7 @@ class FakeFS(object):
         self.files = {}
         self.lost = []
         self.windex = 0
+        self.byte_sizes = False
         self.path = FakePath(self)
         self.ops = []
 
@@ -95,22 +101,35 @@ class FakeFS(object):
     def close(self, fd):
         pass
 
+    def listdir(self, d='.'):
+        self.ops.append(('listdir', d))
+        d = _real_os.path.normpath(d or '.')
+        return sorted(_real_os.path.basename(n) for n in self.files if _real_os.path.normpath(_real_os.path.dirname(n) or '.') == d)
+
     def __getattr__(self, n):
         return getattr(_real_os, n)
+
+    def width(self, s):
+        """what a chunk of text adds to the file size: characters (ASCII assumption) or UTF-8 bytes (byte_sizes, concrete text only)"""
+        return len(s.encode('utf-8')) if self.byte_sizes else len(s)
 
     def size(self, name):
         n = 0
         for _i, s in self.files[name]:
-            n = n + len(s)
+            n = n + self.width(s)
         return n
 
 
 def install(fs):
     """Make circus.stream.file_stream use ``fs``; returns an undo callable."""
     import circus.stream.file_stream as m
-    old = (m.__dict__.get('open'), m.os)
+    old = (m.__dict__.get('open'), m.os, m.__dict__.get('to_bytes'))
     m.open = fs.open
     m.os = fs
+    if old[2] is not None:
+        # text -> bytes for size accounting: the real function when sizes are counted in bytes (concrete text); for symbolic
+        # ASCII payloads (sizes in characters) the identity, so that the LENGTH stays a solver variable
+        m.to_bytes = lambda s_: old[2](s_) if fs.byte_sizes else s_
 
     def undo():
         if old[0] is None:
@@ -118,4 +137,6 @@ def install(fs):
         else:
             m.open = old[0]
         m.os = old[1]
+        if old[2] is not None:
+            m.to_bytes = old[2]
     return undo
